@@ -70,3 +70,6 @@ func VerifLoadPodResources(db storage.Storage, attached []*daemon.ENI) ([]daemon
 	}
 	return filterENINotFound(getPodResources(objList), attachedENIID), nil
 }
+
+// VerifRuleSync exposes ruleSync (the periodic re-assertion of a pod's policy routes and rules, run from gcPods).
+func VerifRuleSync(ctx context.Context, res daemon.PodResources) error { return ruleSync(ctx, res) }
